@@ -2,7 +2,7 @@
    ExtrOcamlBasic only; Z, positive, nat stay the extracted inductive types.
    Append the functions of new formats to the list. *)
 From Coq Require Extraction ExtrOcamlBasic.
-From SV Require Import Lib.Base Model.WireBase Model.WireEth Model.WireArp Model.WireUdp Model.WireIpv4 Model.WireIpv6.
+From SV Require Import Lib.Base Model.WireBase Model.WireEth Model.WireArp Model.WireUdp Model.WireIpv4 Model.WireIpv6 Model.WireIcmpv4 Model.WireIcmpv6.
 Extraction Language OCaml.
 Cd "../ocaml/gen".
 Extraction "wire_model.ml"
@@ -18,5 +18,10 @@ Extraction "wire_model.ml"
   ipv4_payload ipv4_verify_checksum ipv4_parse ipv4_buffer_len ipv4_emit ipv4_wf
   ipv6_check_len ipv6_version ipv6_traffic_class ipv6_flow_label ipv6_payload_len_ ipv6_total_len
   ipv6_next_header ipv6_hop_limit_ ipv6_src_addr ipv6_dst_addr ipv6_payload ipv6_parse ipv6_buffer_len
-  ipv6_emit ipv6_wf.
+  ipv6_emit ipv6_wf
+  icmpv4_check_len icmpv4_msg_type icmpv4_msg_code icmpv4_checksum icmpv4_echo_ident icmpv4_echo_seq_no
+  icmpv4_header_len icmpv4_data icmpv4_verify_checksum icmpv4_parse icmpv4_buffer_len icmpv4_emit icmpv4_wf
+  icmpv6_check_len icmpv6_msg_type icmpv6_msg_code icmpv6_checksum icmpv6_echo_ident icmpv6_echo_seq_no
+  icmpv6_pkt_too_big_mtu icmpv6_param_problem_ptr icmpv6_header_len icmpv6_payload icmpv6_verify_checksum
+  icmpv6_parse icmpv6_buffer_len icmpv6_emit icmpv6_wf wb_delegated.
 Cd "../../coq".
